@@ -493,6 +493,12 @@ func (oc *objectCache) get(obj types.Object) (val interface{}, errs []error) {
 		// Universe objects (nil, true, ...) have no package.
 		return nil, []error{fmt.Errorf("%v is not a provider or a provider set", obj)}
 	}
+	if obj.Parent() != obj.Pkg().Scope() {
+		// Only package-level declarations can be providers or provider sets.
+		// An injector parameter (or any other local object) that shadows one
+		// must not be mistaken for it: the cache below is keyed by name.
+		return nil, []error{fmt.Errorf("%v is not a provider or a provider set", obj)}
+	}
 	ref := objRef{
 		importPath: obj.Pkg().Path(),
 		name:       obj.Name(),
